@@ -4,7 +4,8 @@ import itertools
 from ..sched import check, configs as C
 from .c01 import LEVEL, TECHNIQUE, ASSUMPTIONS  # noqa: F401  pylint: disable=unused-import
 
-RULE = ('every schedule with at most `preemption_bound` preemptions of Scheduler.schedule() for each listed configuration: acyclic '
+RULE = ('[outcomes also: update replacing the own or another entry by a non-dictionary, update whose merge fails half-way, WAITING / PENDING returned as status; the master giving up while tasks are queued (stale FAILED / SKIPPED entry on the last task)] ' +
+        'every schedule with at most `preemption_bound` preemptions of Scheduler.schedule() for each listed configuration: acyclic '
         'graphs with every outcome, cyclic graphs (self loop, 2-cycle, 3-cycle, cycle closed only by a soft edge, cycle hanging off '
         'a DAG), initial environments holding DONE/FAILED/SKIPPED entries, and a second schedule() call on the same Scheduler object; every execution must end with the master returned or '
         'raised, no model thread alive, no blocked thread (deadlock = no enabled thread while one is unfinished; livelock = 5000 '
